@@ -144,6 +144,30 @@ func ruleC10EntryRecover(c *Ctx) {
 				}
 			}
 		})
+		if !stores {
+			// a handler shared by the entries: `defer recoverToError(&result, &err)` -- it stores a non-nil error through a
+			// pointer parameter, and this entry passes the address of its own error result for that parameter
+			if ei := errIdx(e.fn); ei >= 0 {
+				cell := resultCell(e.fn, ei)
+				allInstrs(e.fn, func(_ *ssa.BasicBlock, in ssa.Instruction) {
+					d, ok := in.(*ssa.Defer)
+					if !ok || recoverTarget(d) != h || cell == nil {
+						return
+					}
+					allInstrs(h, func(_ *ssa.BasicBlock, hin ssa.Instruction) {
+						st, ok := hin.(*ssa.Store)
+						if !ok || !isErrorT(st.Val.Type()) || isNilConst(st.Val) {
+							return
+						}
+						for i, p := range h.Params {
+							if st.Addr == ssa.Value(p) && i < len(d.Call.Args) && d.Call.Args[i] == ssa.Value(cell) {
+								stores = true
+							}
+						}
+					})
+				})
+			}
+		}
 		c.Check(stores, "c10.entry-recover", e.name, c.P.Pos(e.fn.Pos()), "first action defers a recover handler that sets the error result", "the deferred recover handler does not store a non-nil error into the entry's error result")
 	}
 }
@@ -274,6 +298,13 @@ func ruleC10GoClosures(c *Ctx) {
 						if isDefer && recoverTarget(tin.(*ssa.Defer)) != nil {
 							return
 						}
+						// a plain call of a module function that defers a recover handler before anything else (the body of
+						// the goroutine moved into a function of its own): a panic in there does not come back to this frame
+						if _, isCall := tin.(*ssa.Call); isCall && !cc.IsInvoke() && cc.StaticCallee() != nil && c.P.InModule(cc.StaticCallee()) && len(cc.StaticCallee().Blocks) > 0 {
+							if h, _ := firstRecoverDefer(cc.StaticCallee()); h != nil {
+								return
+							}
+						}
 						onlyAllowed, other = false, "call of "+name
 					}
 				})
@@ -322,7 +353,11 @@ func ruleC10GoClosures(c *Ctx) {
 							okAdd = true
 						}
 					}
-					c.Check(okAdd, "c10.go-closure", key+"/add-before-go", c.P.Pos(g.Pos()), "wg.Add precedes the go statement in the same block", "the goroutine calls Done but no wg.Add precedes the go statement in its block")
+					if !okAdd {
+						// the counted form: wg.Add(len(xs)) once in front of `for ... range xs`, one go statement per round
+						okAdd = addCountsRounds(f, b, g)
+					}
+					c.Check(okAdd, "c10.go-closure", key+"/add-before-go", c.P.Pos(g.Pos()), "wg.Add precedes the go statement in the same block (or counts the rounds of the loop in front of it)", "the goroutine calls Done but no wg.Add precedes the go statement in its block")
 				}
 			}
 		}
@@ -746,4 +781,58 @@ func chanOrigin(v ssa.Value, mc *ssa.MakeClosure, d int) *ssa.MakeChan {
 		return found
 	}
 	return nil
+}
+
+// addCountsRounds: the go statement g (in block b of f) is the only one of a range loop over a collection xs, it runs in
+// every round (its block is the entry of the loop body), and a call wg.Add(len(xs)) dominates the loop from outside it.
+func addCountsRounds(f *ssa.Function, b *ssa.BasicBlock, g *ssa.Go) bool {
+	type rl struct {
+		header *ssa.BasicBlock
+		over   ssa.Value
+	}
+	var loops []rl
+	for _, nx := range mapRangeNexts(f) {
+		loops = append(loops, rl{nx.Block(), nx.Iter.(*ssa.Range).X})
+	}
+	for _, lp := range rangeLoops(f) {
+		loops = append(loops, rl{lp.header, lp.over})
+	}
+	for _, lp := range loops {
+		if lp.over == nil || !inNaturalLoop(lp.header, b) {
+			continue
+		}
+		// one go statement in the loop, in the block every round enters
+		gos, adds := 0, 0
+		for _, x := range f.Blocks {
+			if !inNaturalLoop(lp.header, x) {
+				continue
+			}
+			for _, in := range x.Instrs {
+				if _, isGo := in.(*ssa.Go); isGo {
+					gos++
+				}
+				if call, ok := in.(*ssa.Call); ok && strings.HasSuffix(calleeName(call.Common()), "(*sync.WaitGroup).Add") {
+					adds++
+				}
+			}
+		}
+		if gos != 1 || adds != 0 || len(b.Preds) != 1 || b.Preds[0] != lp.header {
+			continue
+		}
+		for _, x := range f.Blocks {
+			if x == lp.header || inNaturalLoop(lp.header, x) || !x.Dominates(lp.header) {
+				continue
+			}
+			for _, in := range x.Instrs {
+				call, ok := in.(*ssa.Call)
+				if !ok || !strings.HasSuffix(calleeName(call.Common()), "(*sync.WaitGroup).Add") || len(call.Call.Args) != 2 {
+					continue
+				}
+				if isLenOf(call.Call.Args[1], lp.over) || NewTB().Of(call.Call.Args[1]).String() == "builtin:len("+NewTB().Of(lp.over).String()+")" {
+					return true
+				}
+			}
+		}
+	}
+	return false
 }
